@@ -156,7 +156,7 @@ impl Property for C09 {
         "C09"
     }
     fn rule(&self) -> String {
-        "cases: vectors in Fr^n (n=1..8, boundary-weighted, incl. all-equal) and byte strings (block-edge lengths 135/136/137/271.., long patterns, lengths 2^k-1 / 2^k / 2^k+1 for k = 10..17 (20 in the thorough tier), 100000, 200000); \
+        "the library's generic Poseidon is first instantiated over BN254's base field (same bit length, same round parameters) and used once, before the first hash over the scalar field in this process; cases: vectors in Fr^n (n=1..8, boundary-weighted, incl. all-equal) and byte strings (block-edge lengths 135/136/137/271.., long patterns, lengths 2^k-1 / 2^k / 2^k+1 for k = 10..17 (20 in the thorough tier), 100000, 200000); \
          each compared on three entry points (typed, byte-level with readers handing out 1 / 7 / 33 bytes per call or everything at once and writers accepting as little, FFI with separate and with one shared Buffer struct) against the BigUint reference Poseidon / own Keccak sponge; the last 24 outputs handed out through the C interface are re-read after every later C call; KeccakSeq / PoseidonSeq: related inputs (equal length, one byte / one element changed, mostly near the end so that a long prefix is shared) hashed back to back on one thread in the order s, s', s, s' — each result against the reference (purity across calls). \
          non-trivial = Poseidon with n>=4 or a boundary element, or a byte string whose length is within 1 of a multiple of 136 (>=135) or > 136; distinct by case content".into()
     }
@@ -175,6 +175,17 @@ impl Property for C09 {
         }
     }
     fn selftest(&self, _ctx: &Ctx) -> Result<(), String> {
+        // The hasher is a generic library type. Before the first hash over the scalar field in this
+        // process, the same library is instantiated with the same round parameters over another prime
+        // field of the same bit length (BN254's base field) and used once: nothing the library keeps
+        // per process may be shared between instantiations. (Contained: a failure here is not judged.)
+        let _ = guarded(|| {
+            let other = zerokit_utils::poseidon::poseidon_hash::Poseidon::<ark_bn254::Fq>::from(&rln::hashers::ROUND_PARAMS);
+            for n in 1..=8u64 {
+                let v: Vec<ark_bn254::Fq> = (1..=n).map(ark_bn254::Fq::from).collect();
+                let _ = other.hash(&v);
+            }
+        });
         keccak_ref::selftest()?;
         poseidon_ref::selftest()
     }
